@@ -183,7 +183,7 @@ def build_teams(model, g, names=True):
             if k % 2 == 0 and float(s).is_integer() and abs(s) < 2 ** 53:
                 s = int(s)
             team.append(model.rating(mu=m, sigma=s, name=("p%d" % k) if names else None))
-            if names == "some" and k % 3 == 1:
+            if names == "some" and (k % 3 == 1 or len(g["teams"]) % 2 == 0):
                 team[-1].name = None          # most applications never name their ratings: None is the default
             k += 1
         teams.append(team)
